@@ -587,7 +587,8 @@ def _append_nans(result, axis, first=False):
     """
     shape = list(result.shape)
     shape[axis] = 1
-    nan_slice = np.empty(shape, dtype=result.dtype) # make a slice (also when result is empty along axis)...
+    dtype = np.result_type(result.dtype, float) # integer data is promoted to hold NaN
+    nan_slice = np.empty(shape, dtype=dtype) # make a slice (also when result is empty along axis)...
     nan_slice.fill(np.nan) # ...filled with NaNs
 
     # Insert as first element
